@@ -132,6 +132,7 @@ func heapRef[T any](x any, s uint64) T { var z T; return z }
 func heapLen(x any) int { return 0 }
 func heapMin(x any) uint64 { return 0 }
 func calls(f string) int { return 0 }
+func lastret(f string) int { return 0 }
 func lockOf(x any) any { return x }
 func ite[T any](c bool, a, b T) T { if c { return a }; return b }
 func buflen(b any) int { return 0 }
